@@ -566,23 +566,16 @@ with parseSlots (fuel : nat) (acc : list (nat * bytes * list stmt)) (st : pstate
       do (b, st2) <- parseBody f st';
       let '(okE, st3) := expectPeek st2 T_END in
       if negb okE then POk None st3 else
-      skipHtmlThenSlots f ((eline t, name, b) :: acc) (advance st3) in
+      let acc' := (eline t, name, b) :: acc in
+      let st4 := if peekIs st3 T_HTML && isWhitespaceLit (tlit (peekT st3)) then advance st3 else st3 in
+      if negb (peekIs st4 T_SLOT) then POk (Some (rev acc')) st4
+      else parseSlots f acc' (advance st4) in
     if peekIs st T_LPAREN then
       let st1 := advance (advance st) in
       let name := tlit (curT st1) in
       let '(ok, st2) := expectPeek st1 T_RPAREN in
       if negb ok then POk None st2 else cont name st2
     else cont [] st
-  end
-
-(* for p.curTokenIs(HTML) { p.nextToken() } then the next iteration of parseSlots *)
-with skipHtmlThenSlots (fuel : nat) (acc : list (nat * bytes * list stmt)) (st : pstate)
-     {struct fuel} : pres (option (list (nat * bytes * list stmt))) :=
-  match fuel with
-  | O => POOF
-  | S f =>
-    if curIs st T_HTML then skipHtmlThenSlots f acc (advance st)
-    else parseSlots f acc st
   end.
 
 (* ParseProgram; None = Go returned a nil program (illegal token) *)
